@@ -86,7 +86,7 @@ def check_toptwo(ctx, case):
             else:
                 adv = [c for g in st[1].remaining for c in g]
                 drop = [c for g in st[1].eliminated for c in g]
-                if len(adv) != 2 or sorted(adv + drop) != sorted(cands) or (drop and min(fp[c] for c in adv) < max(fp[c] for c in drop)):
+                if len(adv) != min(2, len(cands)) or sorted(adv + drop) != sorted(cands) or (drop and min(fp[c] for c in adv) < max(fp[c] for c in drop)):
                     ctx.fail("TopTwo: stage 1 does not keep the two highest first-place candidates", c2,
                              {"advancing": adv, "fpv": canon.scores_c(fp)})
                 else:
